@@ -24,6 +24,7 @@ CONSTANTS Posters = {1, 2}
  LateDests = {"c2"}
  Types = {5, 10, 20}
  Recheck = %s
+ Repoll = %s
 INVARIANT HandledOnce
 INVARIANT PriorityRespected
 INVARIANT SenderFifo
@@ -43,17 +44,27 @@ class Rec(MessagePassingComputation):
         self._msg_handlers["m"] = lambda s, m, t: on_handled(name, s, m)
 
 
+class Diverged(Exception):
+    """the real code is not where the model's next step needs it (its structure differs from Messaging.tla)"""
+
+
 class Driver:
-    def __init__(self, scripts, dests=("c1", "c2"), late=("c2",)):
+    def __init__(self, scripts, dests=("c1", "c2"), late=("c2",), real_loop=False, free=False):
+        """real_loop: the agent's own thread runs the REAL Agent._run, parked at every call of Messaging.next_msg; otherwise
+        the loop body is executed by vlib/agentrt.py"""
         self.scripts, self.dests, self.late = scripts, list(dests), set(late)
+        self.real_loop = real_loop
         self.w = AgentWorld()
         self.a = self.w.add_agent("a1")
-        self.w.boot("a1")
+        if not real_loop:
+            self.w.boot("a1")
         self.ids, self.keep = {}, []
         self.handled, self.fetch, self.before = [], [], []
         self.exited = False
+        self.apc = "poll"            # agentrt mode: where the (re-implemented) loop is; real loop mode: read from the thread
         self.progress = {p: 1 for p in scripts}      # index of the post_msg call each thread is in / about to make
         self.st = st = Stepper()
+        st.free = free              # free: the posting threads are not stepped, they run concurrently on their own
         ms = self.a._messaging
         disc = ms.discovery
         o_ca, o_sub = disc.computation_agent, disc.subscribe_computation
@@ -82,7 +93,12 @@ class Driver:
             class YLock:
                 def __enter__(self_):
                     st.point("fail")
-                    inner.acquire()
+                    if not inner.acquire(timeout=3):
+                        # a parked thread holds the lock: the code no longer follows the model's steps; stop stepping
+                        with st.cv:
+                            st.free = True
+                            st.cv.notify_all()
+                        inner.acquire()
 
                 def __exit__(self_, *exc):
                     inner.release()
@@ -93,6 +109,34 @@ class Driver:
                     st.point("fail")
                     super().append(x)
             ms._failed = FL()
+        if real_loop:
+            o_next = ms.next_msg
+
+            def next_msg(timeout=0):
+                st.point("poll")
+                r = o_next(0)             # a poll that finds nothing is a timed-out poll
+                st.point("polled")        # between the poll and the next test of the loop condition
+                return r
+            ms.next_msg = next_msg
+            # the end of an iteration (before the periodic actions and the next test of the loop condition) is a yield point too:
+            # what the model does while the loop is "about to poll" then happens before that test on the real thread
+            o_periodic = self.a._process_periodic_action
+
+            def periodic():
+                st.point("periodic")
+                return o_periodic()
+            self.a._process_periodic_action = periodic
+            st.adopt(self.a.t, "agent")
+            orig_run = self.a._run
+
+            def run_and_report():
+                try:
+                    orig_run()
+                finally:
+                    st.mark_done("agent")
+            self.a.t._target = run_and_report
+            self.a.start()
+            st.wait_parked("agent")
         for d in self.dests:
             if d not in self.late:
                 self.register(d)
@@ -111,6 +155,8 @@ class Driver:
         return body
 
     def register(self, d):
+        if not self.a.is_running:       # the agent's thread has ended (real loop mode, after loop exit)
+            return
         c = Rec(d, lambda name, s, m: self.handled.append(self.ids[id(m)]))
         self.a.add_computation(c)
         self.a.run(d)
@@ -118,28 +164,83 @@ class Driver:
     def queue_mids(self):
         return [self.ids[id(e[3].msg)] for e in sorted(self.a._messaging._queue.queue, key=lambda e: (e[0], e[1]))]
 
+    def agent_until(self, cond, what, limit=10):
+        """advance the real agent thread until cond(where) holds"""
+        for _ in range(limit):
+            where = self.st.where("agent")
+            if cond(where):
+                return where
+            if where[0] != "parked":
+                break
+            self.st.advance("agent")
+        where = self.st.where("agent")
+        if not cond(where):
+            raise Diverged("%s: the real agent thread is at %r" % (what, where))
+        return where
+
     def apply(self, a):
         n = a["n"]
         self.trail = getattr(self, "trail", []) + [n + str(a.get("p", a.get("d", "")))]
         if n in ("begin", "lookup", "put", "sub", "fail"):
             st = self.st.where(a["p"])
             if st != ("parked", n):
-                raise MachineryError("thread %s is at %r, the model expects %s (after %s)" % (a["p"], st, n, getattr(self, "trail", None)))
-            self.st.advance(a["p"])
+                raise Diverged("thread %s is at %r, the model expects %s" % (a["p"], st, n))
+            try:
+                self.st.advance(a["p"])
+            except RuntimeError as ex:       # blocked somewhere that is not a yield point of the model
+                raise Diverged(str(ex))
         elif n == "register":
             self.register(a["d"])
         elif n == "next":
             self.fetch.append({"m": self.queue_mids()[0] if self.queue_mids() else -1,
                                "queued": [e[0] for e in self.a._messaging._queue.queue]})
-            self.w.step("a1")
+            if self.real_loop:
+                before = len(self.handled)
+                self.agent_until(lambda w: w[0] != "parked" or (len(self.handled) > before and w[1] in ("periodic", "poll")),
+                                 "a message is due")
+                if len(self.handled) != before + 1:
+                    raise Diverged("the real agent loop handled %d messages where one was due (thread: %r)" % (
+                        len(self.handled) - before, self.st.where("agent")))
+            else:
+                self.w.step("a1")
+            self.apc = "poll"
+        elif n == "idle":
+            if self.real_loop:
+                if self.queue_mids():
+                    raise Diverged("idle poll with a non-empty queue")
+                self.agent_until(lambda w: w == ("parked", "polled"), "a poll that finds nothing is due")
+            self.apc = "check"
+        elif n == "resume":
+            if self.real_loop:
+                if self.st.where("agent") != ("parked", "polled"):
+                    raise Diverged("thread %r where the model is after a timed-out poll" % (self.st.where("agent"),))
+                self.st.advance("agent")
+                if self.st.where("agent") not in (("parked", "poll"), ("parked", "periodic")):
+                    raise Diverged("the loop did not go on to its next iteration: %r" % (self.st.where("agent"),))
+            self.apc = "poll"
         elif n == "shutdown":
             self.a.clean_shutdown()
         elif n == "exit":
-            if not (self.a._shutdown.is_set() and not self.queue_mids()):
-                raise MachineryError("loop exit not enabled on the real agent")
+            if self.real_loop:
+                self.agent_until(lambda w: w[0] == "done", "the loop is to exit after clean_shutdown")
+            elif not self.a._shutdown.is_set():
+                raise Diverged("loop exit without shutdown")
             self.exited = True
         else:
             raise MachineryError("unknown action %r" % a)
+
+    def idle_poll(self):
+        """real loop mode: let the agent make a poll that finds nothing; it is then between that poll and its next loop test"""
+        if self.real_loop and self.st.where("agent") == ("parked", "poll") and not self.queue_mids() and not self.a._shutdown.is_set():
+            self.st.advance("agent")
+
+    def apc_now(self):
+        if not self.real_loop:
+            return self.apc
+        where = self.st.where("agent")
+        if where[0] == "done":
+            return self.apc
+        return "check" if where[1] == "polled" else "poll"
 
     def pcs(self):
         out = []
@@ -156,7 +257,8 @@ class Driver:
     def project(self):
         cbs = sorted(d for d in self.dests if any(True for _ in self.a.discovery._computation_cbs.get(d, [])))
         return {"pc": self.pcs(), "idx": [self.progress[p] for p in sorted(self.scripts)], "cbs": cbs, "known": self.known(), "failed": [self.ids[id(f[2])] for f in self.a._messaging._failed],
-                "queue": self.queue_mids(), "handled": list(self.handled), "shut": self.a._shutdown.is_set(), "exited": self.exited}
+                "queue": self.queue_mids(), "handled": list(self.handled), "shut": self.a._shutdown.is_set(), "exited": self.exited,
+                "apc": self.apc_now()}
 
     def all_posted(self):
         return all(self.st.where(p)[0] == "done" for p in self.scripts)
@@ -168,16 +270,34 @@ class Driver:
         stuck = [m for m, f in zip(failed, self.a._messaging._failed) if f[1] in known] if all(
             self.st.where(p)[0] == "done" or self.st.where(p)[1] == "begin" for p in self.scripts) and not self.a._shutdown.is_set() else []
         settled = self.all_posted() and known == set(self.dests) and not self.a._shutdown.is_set() and not self.queue_mids()
+        exited = self.exited or (self.real_loop and self.st.where("agent")[0] == "done")
         return {"id": hid, "msgs": msgs, "handled": list(self.handled), "fetch": list(self.fetch), "before": [m for m in self.before if m > 0],
-                "exited": self.exited, "settled": settled, "stuck": stuck}
+                "exited": exited, "settled": settled and not exited, "stuck": stuck}
 
     def settle(self):
         """let every thread finish, register the late computations, drain the queue"""
-        self.st.finish_all()
+        if self.st.free:
+            if self.real_loop:
+                self.a.clean_shutdown()
+                self.a.t.join(10)
+                self.st.mark_done("agent")
+        else:
+            try:
+                self.st.finish_all()
+            except RuntimeError:
+                self.st.free_run()
         for d in self.dests:
             if d not in self.known():
                 self.register(d)
-        if not self.exited:
+        if self.real_loop:
+            for _ in range(100):
+                where = self.st.where("agent")
+                if where[0] != "parked" or (where[1] in ("poll", "periodic") and not self.queue_mids() and not self.a._shutdown.is_set()):
+                    break
+                self.st.advance("agent")
+            if self.st.where("agent")[0] == "done":
+                self.exited = True
+        elif not self.exited:
             for _ in range(100):
                 if not self.queue_mids():
                     break
@@ -185,9 +305,25 @@ class Driver:
 
     def close(self):
         try:
+            if self.real_loop and self.st.where("agent")[0] == "parked":
+                self.a.stop()
             self.st.finish_all()
         except Exception:
             pass
+
+
+def free_execution(sc, r):
+    """real posting threads running freely (no stepping); the late computation is registered while they post"""
+    d = Driver(sc, free=True)
+    for _ in range(r.randrange(0, 400)):
+        pass
+    for dest in d.dests:
+        if dest not in d.known():
+            d.register(dest)
+    for t in d.st.threads.values():
+        t.join(10)
+    d.settle()
+    return d
 
 
 def tla_scripts(sc):
@@ -203,38 +339,64 @@ def run(tier):
     total_paths = total_steps = total_edges = 0
     for name in (["A", "B", "C"] if quick else ["A", "B", "C", "D"]):
         sc = SCRIPTS[name]
-        cfg = CFG % ("TRUE" if fixed else "FALSE")
+        import inspect
+        from pydcop.infrastructure.agents import Agent as _Agent
+        repoll = inspect.getsource(_Agent._run).count("next_msg(") >= 2
+        cfg = CFG % ("TRUE" if fixed else "FALSE", "TRUE" if repoll else "FALSE")
+        if not repoll:      # the unrepaired loop: the model itself loses messages queued between a timed-out poll and the shutdown test
+            cfg = cfg.replace("INVARIANT ShutdownDrains\n", "")
         if not fixed:       # the unrepaired post_msg: the model itself has the stuck-deferral race; the real histories are judged below
             cfg = cfg.replace("INVARIANT NoStuckDeferred\n", "")
         g, res = RP.dump_edges("Messaging", cfg, consts={"Scripts": tla_scripts(sc)}, heap="6g")
         if res.violated:
             raise MachineryError("Messaging.tla (scripts %s) violates %s in the model" % (name, res.violated))
         v.add_tlc(res, "exhaustive model checking of Messaging.tla (scripts %s: %s) with invariants + labelled edge dump" % (name, sc))
-        init = {"pc": ["idle", "idle"], "idx": [1, 1], "cbs": [], "known": ["c1"], "failed": [], "queue": [], "handled": [], "shut": False, "exited": False}
+        init = {"pc": ["idle", "idle"], "idx": [1, 1], "cbs": [], "known": ["c1"], "failed": [], "queue": [], "handled": [], "shut": False, "exited": False, "apc": "poll"}
         paths = g.cover(init, max_len=40)
         if quick and len(paths) > 700:
             random.Random(seed()).shuffle(paths)
             paths = paths[:700]
         total_edges += g.nedges
         for pi, path in enumerate(paths):
-            d = Driver(sc)
+            if len(v.divergences) >= 12:
+                v.notes.append("replay stopped after 12 divergences: the code does not follow Messaging.tla's steps; verdict from the histories judged so far")
+                break
+            d = Driver(sc, real_loop=(pi % 2 == 1))
+            diverged = False
             try:
                 for k, (a, exp) in enumerate(path):
-                    d.apply(a)
+                    try:
+                        d.apply(a)
+                    except Diverged as ex:
+                        v.divergence("scripts %s path %d step %d (%s): %s" % (name, pi, k, a["n"], ex))
+                        d.st.free_run()         # the threads finish on their own; the history is still judged
+                        diverged = True
+                        break
                     total_steps += 1
                     got = d.project()
                     exp = dict(exp, known=sorted(exp["known"]), cbs=sorted(exp["cbs"]))
+                    if d.real_loop and d.exited:
+                        break      # the real thread has run Agent._on_stop (computations unregistered), which is outside the model
                     diff = RP.first_diff(got, exp)
                     if diff:
                         v.divergence("scripts %s path %d step %d (%s): real objects differ from Messaging.tla at %s" % (name, pi, k, a["n"], diff))
                         break
-                if pi % 2 == 0:
+                if pi % 4 < 2 or d.a._shutdown.is_set() or diverged:
                     d.settle()
                 hist.append((d.history(len(hist)), {"scripts": name, "path": [x[0] for x in path]}))
             finally:
                 d.close()
         total_paths += len(paths)
-    v.cov.update(replayed_paths=total_paths, replayed_steps=total_steps, model_edges=total_edges)
+    r = random.Random(seed() + 18)
+    nfree = 0
+    for name in sorted(SCRIPTS):
+        for _ in range(15 if quick else 150):
+            d = free_execution(SCRIPTS[name], r)
+            h = d.history(len(hist))
+            h["fetch"] = []
+            hist.append((h, {"scripts": name, "path": [{"n": "free-running threads"}]}))
+            nfree += 1
+    v.cov.update(replayed_paths=total_paths, replayed_steps=total_steps, model_edges=total_edges, free_running_executions=nfree)
     f = scratch() / "c18.ndjson"
     with open(f, "w") as fh:
         for h, _ in hist:
